@@ -44,7 +44,8 @@ class PathResult:
 class Engine:
     def __init__(self, timeout_ms=10000, max_paths=20000, max_decisions=4000):
         self.s = z3.Solver()
-        self.s.set("timeout", timeout_ms)
+        # the incremental core is only trusted with what it answers quickly; anything else goes to a fresh solver
+        self.s.set("timeout", min(timeout_ms, 1000))
         self.timeout_ms = timeout_ms
         self.max_paths = max_paths
         self.max_decisions = max_decisions
